@@ -212,6 +212,44 @@ class Mixture:
             out.append(br * (Z - 1.0) - math.log(Z - B) - A / (2.0 * SQRT2 * B) * (2.0 * s / self.am - br) * L)
         return out
 
+    def ln_phi_fluid(self, P, Z):
+        """ln of the fugacity coefficient of the one-fluid mixture as a whole (pure-fluid expression with a_m, b_m);
+        at equal P the root with the lower value is the stable one (equal values = Maxwell construction)"""
+        A, B = self.AB(P)
+        return Z - 1.0 - math.log(Z - B) - A / (2.0 * SQRT2 * B) * math.log((Z + (1.0 + SQRT2) * B) / (Z + (1.0 - SQRT2) * B))
+
+    def region(self, V, margin=0.02):
+        """Where the state (V, T, x) lies relative to the two-phase region of this cubic.
+          'single'       the cubic at P(V) has one real root (supercritical, dilute gas above the loop, dense fluid)
+          'vapor'        three real roots, V is the largest one and the one-fluid fugacity of the vapour root is lower
+                         than that of the liquid root by more than `margin` in ln: stable vapour, outside the binodal
+          'metastable'   largest root, but not stable by that margin (between binodal and spinodal, or too close to call)
+          'condensed'    three real roots and V is not the largest (liquid / middle branch)
+          'loop'         P(V) <= 0 (inside the spinodal) or V <= b
+          'borderline'   discriminant within rounding of zero (critical region / spinodal point)
+        Only 'single' and 'vapor' are outside the two-phase region for certain."""
+        if V <= self.bm * (1.0 + 1e-12):
+            return "loop"
+        P = self.pressure(V)
+        if not (P > 0.0):
+            return "loop"
+        d, sc = self.discriminant(P), self.disc_scale(P)
+        if d < -1e-9 * sc:
+            return "single"
+        if d <= 1e-9 * sc:
+            return "borderline"
+        A, B = self.AB(P)
+        z = self.real_roots_Z(P)
+        Z = P * V / self.RT
+        if len(z) < 2:
+            # the other real roots lie below B (non-physical): only one admissible volume at this pressure
+            return "single" if z and abs(z[-1] - Z) <= 1e-6 * Z else "borderline"
+        if abs(z[-1] - Z) > 1e-6 * Z:
+            return "condensed"
+        if self.ln_phi_fluid(P, z[0]) - self.ln_phi_fluid(P, z[-1]) > margin:
+            return "vapor"
+        return "metastable"
+
     def has_vdw_loop(self):
         """True when the isotherm P(V) is not monotonic (some pressures have three volume roots)"""
         # dP/dV = -RT/(V-b)^2 + 2 a (V+b) / (V^2+2bV-b^2)^2 ; scan V on a log grid above b
